@@ -73,6 +73,8 @@ class FuncView:
         self.cfg = CFG(fn, exc=exc, may_raise=may_raise, exc_supers=self._supers)
         ctx.functions.add(self.qual)
         ctx.consulted.add(fn._module.relpath)
+        if hasattr(ctx, "unwrapped"):
+            ctx.unwrapped(fn)
 
     def _supers(self, name):
         b = self.fn._module.ns.get(name)
